@@ -50,9 +50,9 @@ CHECKS = {
    note="the recognition itself (run matching over consumed numpy arrays) is bounded only (sequences <= 4 quick / <= 6 thorough, all loading orders)",
    tech=TECH + " of the block generator (pyvc) + " + BND, ref="DESIGN.md section 6 C11"),
  "C12": dict(cat="other", engine="pyvc+smallscope",
-   text="Deductive core (pyvc, any run-length list): the offset generator behind iteration/indexing/slicing yields residues that tile the atom records from 0 (loop invariants over the yielded list); GroFile.seek_atom positions the cursor at first_atom_offset + index*line_size, records the index, raises beyond the last atom. Bounded: contracts on SystemGro iteration / len / n_atoms / box / title and random access as a single-step obligation from every forced cursor position and after every partial iteration, on generated files (all residue-kind sequences up to the bound, four numbering schemes, velocities on/off) against an independent parse.",
-   note="bounded scope (kind sequences <= 4 quick / <= 5 thorough; seeded long files); history length covered by the single-step-from-any-cursor reduction (state scope bounded)",
-   tech=TECH + " of the offset arithmetic (pyvc) + " + BND, ref="DESIGN.md section 6 C12"),
+   text="Deductive core (pyvc): SystemGro._parse_gro for files of any number of records splits them into residues that tile the file and start exactly at changes of residue number or name (loop invariant; Residue() by contract); SystemGro._add_residue_init keeps the class invariant of the run-length structure for any history (templates, (name,size) keys, flat run list, ghost prefix counts: residue q of run r has the size of the run's template); for any run-length list the offset generator behind iteration/indexing/slicing yields residues that tile the atom records from 0 (loop invariants over the yielded list); GroFile.seek_atom positions the cursor at first_atom_offset + index*line_size, records the index, raises beyond the last atom. Bounded: contracts on SystemGro iteration / len / n_atoms / box / title and random access as a single-step obligation from every forced cursor position and after every partial iteration, on generated files (all residue-kind sequences up to the bound, four numbering schemes, velocities on/off) against an independent parse.",
+   note="bounded scope (kind sequences <= 4 quick / <= 5 thorough; seeded long files); history length covered by the single-step-from-any-cursor reduction (state scope bounded); assumed: Residue.__eq__ implies equal name and size; record field parsing bounded only",
+   tech=TECH + " of the residue segmentation, the run-length bookkeeping and the offset arithmetic (pyvc: loop invariants, class invariant with ghost state, z3) + " + BND, ref="DESIGN.md section 6 C12"),
  "C13": dict(cat="other", engine="pyvc+symrun+smallscope",
    text="Five-digit wrap: the wrap expressions are extracted from the AST of the real parse_atomlist and proved over all integers (n <= 99999 unchanged; always <= 5 digits). Record layout: the real writer/reader functions run on symbolic numbers with marker strings: every format (d+5,d), d=1..6, velocities on/off, name lengths: right fields in the right columns, line length 20+3w(1+vel), determine_format inverts the writer. Writer layout invariant (pyvc, any number of records): _setup_write_file / writeline / _write_closing_info against each other's contracts: cursor = file length = first_atom_offset + k*line_size, the deferred count overwrites exactly its placeholder, the box line follows the last record, a declared count different from the records written raises. Bounded part: real GroFile write/read on real files (titles, boxes, count modes, boundary values).",
    note="str.format / int / float by contract on marker strings (A3); one representative name per length (A6); writer layout: strings by length, offsets are character counts; file contents bounded only",
